@@ -46,7 +46,7 @@ func getJump(node *shared.TreeNode) []string {
 	if len(node.Children) == 1 {
 		return append([]string{node.Name}, getJump(node.FirstChild())...)
 	}
-	return []string{}
+	return []string{node.Name}
 }
 
 func printNodeCollapsed(node *shared.TreeNode, level int, output io.Writer) error {
@@ -57,6 +57,14 @@ func printNodeCollapsed(node *shared.TreeNode, level int, output io.Writer) erro
 		jump := getJump(child)
 		if len(jump) > 0 {
 			if _, err = fmt.Fprintf(output, "%10.2f | %s%s\n", child.Total, strings.Repeat("  ", level), strings.Join(jump, "/")); err != nil {
+				return err
+			}
+			// the joined segments may end in a fork: print the branches below it
+			last := child
+			for range jump[1:] {
+				last = last.FirstChild()
+			}
+			if err = printNodeCollapsed(last, level+1, output); err != nil {
 				return err
 			}
 			continue
